@@ -452,7 +452,13 @@ fn c08_session(ctx: &Ctx, idx: usize, seeds: &[String]) {
                     }
                     current = d;
                 }
-                prev_game = None;
+                // a GUI may start a new game and then describe the old one again or go on with it
+                // (analysis of a loaded game): what was sent before ucinewgame must not matter
+                if rng.chance(1, 2) {
+                    prev_game = None;
+                } else if prev_game.is_some() {
+                    out::count("C08.games_continued_across_ucinewgame", 1);
+                }
                 continue;
             }
             1 => {
